@@ -682,13 +682,37 @@ func c06R6(r *Report) {
 			f := c.Parent()
 			r.Fn(f)
 			var owned func(v ssa.Value, d int) bool
+			ownedResult := func(call *ssa.Call, idx int, d int) bool {
+				h := call.Call.StaticCallee()
+				if h == nil || h.Blocks == nil || call.Call.IsInvoke() || !strings.HasPrefix(funcPkgPath(h), modPath) || d > 4 {
+					return false
+				}
+				some := false
+				for _, ret := range returnsOf(h) {
+					res := retResults(ret)
+					if idx >= len(res) {
+						return false
+					}
+					if isNilConst(res[idx]) {
+						continue
+					}
+					if !owned(res[idx], d+2) {
+						return false
+					}
+					some = true
+				}
+				return some
+			}
 			owned = func(v ssa.Value, d int) bool {
 				if d > 6 || v == nil {
 					return false
 				}
 				switch x := v.(type) {
 				case *ssa.Call:
-					return x.Call.StaticCallee() == gb
+					if x.Call.StaticCallee() == gb {
+						return true
+					}
+					return ownedResult(x, 0, d)
 				case *ssa.Slice:
 					return owned(x.X, d+1)
 				case *ssa.Phi:
@@ -699,7 +723,10 @@ func c06R6(r *Report) {
 					}
 					return true
 				case *ssa.Extract:
-					// (data, err) := helper(…) of the package whose results come from GetBuffer: not followed
+					// data, ok := readBlock(peer, r): a helper of the module all of whose returns hand out a GetBuffer result
+					if tc, isC := x.Tuple.(*ssa.Call); isC {
+						return ownedResult(tc, x.Index, d)
+					}
 					return false
 				}
 				if fv, base := loadedFieldAny(v); fv != nil && fv.Name() == "Data" && base != nil {
